@@ -758,7 +758,13 @@ fn value_checks(rec: &mut Rec, map: &Beatmap, diff: &rosu_pp::Difficulty, label:
     let r = guarded(|| {
         let mut out = Vec::new();
         let mut g = GradualDifficulty::new(diff.clone(), map);
-        let state = score_state(1);
+        // a score that claims more of everything than any prefix has: every step has to cut it down to its own prefix
+        let mut state = score_state(2);
+        state.max_combo = 100_000;
+        state.n300 = 30_000;
+        state.n100 = 5_000;
+        state.n50 = 2_000;
+        state.misses = 1_000;
         // the Difficulty handed to the gradual performance calculator still carries a passed_objects value from an earlier use
         // (one less than the number of steps); whether a calculator honours or ignores it, the steps up to that value are the
         // prefixes of the same play, so only those are compared
